@@ -336,6 +336,8 @@ class Ctx:
         if isinstance(goal, bool):
             goal = z3.BoolVal(goal)
         ob = Obligation(name, self.pc, goal, self.path_label, kind, meta)
+        if self.ghost.get("transplanted"):
+            ob.meta.setdefault("transplanted", self.ghost["transplanted"])
         ob.meta.setdefault("decisions", list(self.decisions))
         ob.meta.setdefault("branch_log", [(l, d) for l, d in self.branch_log])
         self.obligations.append(ob)
